@@ -2,4 +2,9 @@
 REGISTRY = {
     'C07': ['store_small_scope'],
     'C08': ['store_small_scope'],
+    'C03': ['docops'],
+    'C05': ['docops'],
+    'C06': ['docops'],
+    'C09': ['docops'],
+    'C19': ['docops', 'store_small_scope'],
 }
